@@ -567,10 +567,10 @@ theorem step_K (tps : Array (Array Int)) (sf ef : Array Int) (sen : Array Int) (
       K sf ef (rows ++ [(step tps sf ef sen (f : Int) s).2]) (f + 1) (step tps sf ef sen (f : Int) s).1.best i h) ∧
     (step tps sf ef sen (f : Int) s).1.hmms.length = s.hmms.length := by
   -- renormalisation
-  let hm0 := if s.best - 0x300000 < worst then s.hmms.map (normalize s.best) else s.hmms
+  let hm0 := if renormDue s.best then s.hmms.map (normalize s.best) else s.hmms
   have hK0 : ∀ i h, hm0[i]? = some h → K sf ef rows f s.best i h := by
     intro i h he
-    by_cases hfire : s.best - 0x300000 < worst
+    by_cases hfire : renormDue s.best
     · have e : hm0 = s.hmms.map (normalize s.best) := by simp only [hm0, hfire, if_true]
       rw [e, List.getElem?_map] at he
       cases hl : s.hmms[i]? with
@@ -578,7 +578,7 @@ theorem step_K (tps : Array (Array Int)) (sf ef : Array Int) (sen : Array Int) (
       | some a =>
         rw [hl] at he
         simp only [Option.map_some, Option.some.injEq] at he
-        rw [← he]; exact k_normalize sf ef rows f s.best i a (hK i a hl) hfire hB
+        rw [← he]; exact k_normalize sf ef rows f s.best i a (hK i a hl) hfire.2 hB
     · have e : hm0 = s.hmms := by simp only [hm0, hfire, if_false]
       rw [e] at he; exact hK i h he
   have hlen0 : hm0.length = s.hmms.length := by
@@ -662,12 +662,12 @@ theorem runAux_K (tps : Array (Array Int)) (sf ef : Array Int) (N : Nat)
     obtain ⟨k1, k2⟩ := step_K tps sf ef sen rows f s N hN hmono hl (hok sen (List.mem_cons_self ..)) hB1 hK
     have e : f + (sen :: rest).length = f + 1 + rest.length := by simp only [List.length_cons]; omega
     have h := ih (step tps sf ef sen (f : Int) s).1 (f + 1)
-      (rows ++ [(step tps sf ef sen (f : Int) s).2]) (rn || decide (s.best - 0x300000 < worst))
+      (rows ++ [(step tps sf ef sen (f : Int) s).2]) (rn || decide (renormDue s.best))
       (by rw [k2]; exact hN) (by simp [hl]) (fun x hx => hok x (List.mem_cons_of_mem _ hx))
       (by rw [← e]; exact hB) k1
     rw [e]
     show (∀ i h, (runAux tps sf ef rest (step tps sf ef sen (f : Int) s).1 (f + 1)
-        (rows ++ [(step tps sf ef sen (f : Int) s).2]) (rn || decide (s.best - 0x300000 < worst))).1.hmms[i]? = some h → _) ∧ _ ∧ _
+        (rows ++ [(step tps sf ef sen (f : Int) s).2]) (rn || decide (renormDue s.best))).1.hmms[i]? = some h → _) ∧ _ ∧ _
     exact ⟨h.1, h.2.1, h.2.2.trans k2⟩
 
 theorem k_start (sf ef : Array Int) (n : Nat) (hsf : sf.getD 0 0 ≤ 0) :
